@@ -384,7 +384,17 @@ theorem integrand_table_sin (θ a : ℝ) : integrand_sin θ a = g_sin (θ / a) :
 theorem analytic_closed_form_sin (θ a : ℝ) (hθ : θ ≠ 0) (ha : 0 < a) :
     ∫ t in (0:ℝ)..a, g_sin (θ * t / a) = result_sin θ a := by
   simp only [g_sin]
-  exact (cf_sin θ a hθ ha).trans (by unfold result_sin; ring)
+  refine (cf_sin θ a hθ ha).trans ?_
+  unfold result_sin
+  -- the code writes `1 - cos θ` as `2 sin²(θ/2)` (no cancellation for tiny angles); either spelling is accepted
+  have hc : Real.cos θ = 1 - 2 * Real.sin (θ / 2) ^ 2 := by
+    have := Real.cos_sq_add_sin_sq (θ / 2)
+    have h2 := Real.cos_two_mul (θ / 2)
+    rw [show 2 * (θ / 2) = θ by ring] at h2
+    rw [h2]; nlinarith
+  first
+    | ring1
+    | (rw [hc]; ring1)
 
 theorem analytic_spec_sin (θ a : ℝ) (ha : 0 < a) :
     analytic_defined_sin θ a ∧ analytic_sin θ a = ∫ t in (0:ℝ)..a, g_sin (θ * t / a) := by
